@@ -107,6 +107,16 @@ func New() *Broker {
 type cliTransport struct {
 	transport.ReadWriter
 	params transport.NegotiationParams
+	closed atomic.Bool
+}
+
+// Close: like the QUIC and WebSocket transports, a second Close reports that the transport was closed already.
+func (c *cliTransport) Close() error {
+	if c.closed.Swap(true) {
+		c.ReadWriter.Close()
+		return transport.ErrAlreadyClosed
+	}
+	return c.ReadWriter.Close()
 }
 
 func (c *cliTransport) AsUnreliable() (transport.UnreliableTransport, bool) { return nil, false }
